@@ -234,7 +234,14 @@ fn gen_layout(rng: &mut Rng) -> Layout {
             rng.range(lo, hi.min(lo + 1000))
         };
         // occasionally duplicate a name (first one wins)
-        let name = if i > 0 && rng.chance(1, 12) { format!("p{}", rng.usize(i)) } else { format!("p{}", i) };
+        // ... or use a name that differs from an earlier one only in the case of its letters (a different name)
+        let name = if i > 0 && rng.chance(1, 12) {
+            format!("p{}", rng.usize(i))
+        } else if i > 0 && rng.chance(1, 8) {
+            format!("P{}", rng.usize(i))
+        } else {
+            format!("p{}", i)
+        };
         desc.data_ref.push((
             off,
             Arc::new(UserPrmDataDefinition {
@@ -253,7 +260,14 @@ fn gen_layout(rng: &mut Rng) -> Layout {
     let mut calls = Vec::new();
     for _ in 0..ncalls {
         if desc.data_ref.is_empty() || rng.chance(1, 12) {
-            calls.push(if rng.bool() { Call::Set("nope".into(), rng.range(-5, 5)) } else { Call::Text("nope".into(), "text0".into()) });
+            // an undeclared name: something else entirely, or a declared name in different case
+            let unknown = if desc.data_ref.is_empty() || rng.bool() {
+                "nope".to_string()
+            } else {
+                let n = rng.pick(&desc.data_ref).1.name.clone();
+                if n.starts_with('p') { n.to_uppercase() } else { n.to_lowercase() }
+            };
+            calls.push(if rng.bool() { Call::Set(unknown, rng.range(-5, 5)) } else { Call::Text(unknown, "text0".into()) });
             continue;
         }
         let (_, def) = rng.pick(&desc.data_ref).clone();
